@@ -4021,7 +4021,8 @@ type world = { w_sess : session; w_conn : bool; w_live : bool; w_event :
                n; w_now : n; w_inq : (n * bytes) list; w_last_arrival : 
                n; w_txbuf : bytes; w_script : (n * n) list; w_broker : 
                n; w_log : text list; w_handles : op list; w_waits : n;
-               w_envok : bool; w_wire : bytes; w_poison : bool }
+               w_envok : bool; w_wire : bytes; w_poison : bool;
+               w_drained : bool }
 
 (** val upd_sess : world -> session -> world **)
 
@@ -4030,7 +4031,8 @@ let upd_sess w s =
     w_now = w.w_now; w_inq = w.w_inq; w_last_arrival = w.w_last_arrival;
     w_txbuf = w.w_txbuf; w_script = w.w_script; w_broker = w.w_broker;
     w_log = w.w_log; w_handles = w.w_handles; w_waits = w.w_waits; w_envok =
-    w.w_envok; w_wire = w.w_wire; w_poison = w.w_poison }
+    w.w_envok; w_wire = w.w_wire; w_poison = w.w_poison; w_drained =
+    w.w_drained }
 
 (** val upd_live : world -> bool -> bool -> n -> world **)
 
@@ -4039,7 +4041,7 @@ let upd_live w conn live ev =
     w.w_now; w_inq = w.w_inq; w_last_arrival = w.w_last_arrival; w_txbuf =
     w.w_txbuf; w_script = w.w_script; w_broker = w.w_broker; w_log = w.w_log;
     w_handles = w.w_handles; w_waits = w.w_waits; w_envok = w.w_envok;
-    w_wire = w.w_wire; w_poison = w.w_poison }
+    w_wire = w.w_wire; w_poison = w.w_poison; w_drained = w.w_drained }
 
 (** val upd_log : world -> text -> world **)
 
@@ -4048,7 +4050,8 @@ let upd_log w l =
     w.w_event; w_now = w.w_now; w_inq = w.w_inq; w_last_arrival =
     w.w_last_arrival; w_txbuf = w.w_txbuf; w_script = w.w_script; w_broker =
     w.w_broker; w_log = (l :: w.w_log); w_handles = w.w_handles; w_waits =
-    w.w_waits; w_envok = w.w_envok; w_wire = w.w_wire; w_poison = w.w_poison }
+    w.w_waits; w_envok = w.w_envok; w_wire = w.w_wire; w_poison = w.w_poison;
+    w_drained = w.w_drained }
 
 (** val upd_script : world -> (n * n) list -> world **)
 
@@ -4057,7 +4060,8 @@ let upd_script w sc =
     w.w_event; w_now = w.w_now; w_inq = w.w_inq; w_last_arrival =
     w.w_last_arrival; w_txbuf = w.w_txbuf; w_script = sc; w_broker =
     w.w_broker; w_log = w.w_log; w_handles = w.w_handles; w_waits =
-    w.w_waits; w_envok = w.w_envok; w_wire = w.w_wire; w_poison = w.w_poison }
+    w.w_waits; w_envok = w.w_envok; w_wire = w.w_wire; w_poison = w.w_poison;
+    w_drained = w.w_drained }
 
 (** val upd_now : world -> n -> world **)
 
@@ -4066,7 +4070,8 @@ let upd_now w t =
     w.w_event; w_now = t; w_inq = w.w_inq; w_last_arrival = w.w_last_arrival;
     w_txbuf = w.w_txbuf; w_script = w.w_script; w_broker = w.w_broker;
     w_log = w.w_log; w_handles = w.w_handles; w_waits = w.w_waits; w_envok =
-    w.w_envok; w_wire = w.w_wire; w_poison = w.w_poison }
+    w.w_envok; w_wire = w.w_wire; w_poison = w.w_poison; w_drained =
+    w.w_drained }
 
 (** val upd_inq : world -> (n * bytes) list -> n -> world **)
 
@@ -4075,7 +4080,7 @@ let upd_inq w q last =
     w.w_event; w_now = w.w_now; w_inq = q; w_last_arrival = last; w_txbuf =
     w.w_txbuf; w_script = w.w_script; w_broker = w.w_broker; w_log = w.w_log;
     w_handles = w.w_handles; w_waits = w.w_waits; w_envok = w.w_envok;
-    w_wire = w.w_wire; w_poison = w.w_poison }
+    w_wire = w.w_wire; w_poison = w.w_poison; w_drained = w.w_drained }
 
 (** val upd_txbuf : world -> bytes -> world **)
 
@@ -4084,7 +4089,8 @@ let upd_txbuf w b =
     w.w_event; w_now = w.w_now; w_inq = w.w_inq; w_last_arrival =
     w.w_last_arrival; w_txbuf = b; w_script = w.w_script; w_broker =
     w.w_broker; w_log = w.w_log; w_handles = w.w_handles; w_waits =
-    w.w_waits; w_envok = w.w_envok; w_wire = w.w_wire; w_poison = w.w_poison }
+    w.w_waits; w_envok = w.w_envok; w_wire = w.w_wire; w_poison = w.w_poison;
+    w_drained = w.w_drained }
 
 (** val upd_broker : world -> n -> world **)
 
@@ -4093,7 +4099,8 @@ let upd_broker w m =
     w.w_event; w_now = w.w_now; w_inq = w.w_inq; w_last_arrival =
     w.w_last_arrival; w_txbuf = w.w_txbuf; w_script = w.w_script; w_broker =
     m; w_log = w.w_log; w_handles = w.w_handles; w_waits = w.w_waits;
-    w_envok = w.w_envok; w_wire = w.w_wire; w_poison = w.w_poison }
+    w_envok = w.w_envok; w_wire = w.w_wire; w_poison = w.w_poison;
+    w_drained = w.w_drained }
 
 (** val upd_handles : world -> op list -> world **)
 
@@ -4102,7 +4109,8 @@ let upd_handles w h =
     w.w_event; w_now = w.w_now; w_inq = w.w_inq; w_last_arrival =
     w.w_last_arrival; w_txbuf = w.w_txbuf; w_script = w.w_script; w_broker =
     w.w_broker; w_log = w.w_log; w_handles = h; w_waits = w.w_waits;
-    w_envok = w.w_envok; w_wire = w.w_wire; w_poison = w.w_poison }
+    w_envok = w.w_envok; w_wire = w.w_wire; w_poison = w.w_poison;
+    w_drained = w.w_drained }
 
 (** val upd_waits : world -> n -> world **)
 
@@ -4111,7 +4119,8 @@ let upd_waits w n0 =
     w.w_event; w_now = w.w_now; w_inq = w.w_inq; w_last_arrival =
     w.w_last_arrival; w_txbuf = w.w_txbuf; w_script = w.w_script; w_broker =
     w.w_broker; w_log = w.w_log; w_handles = w.w_handles; w_waits = n0;
-    w_envok = w.w_envok; w_wire = w.w_wire; w_poison = w.w_poison }
+    w_envok = w.w_envok; w_wire = w.w_wire; w_poison = w.w_poison;
+    w_drained = w.w_drained }
 
 (** val upd_envok : world -> bool -> world **)
 
@@ -4120,7 +4129,8 @@ let upd_envok w b =
     w.w_event; w_now = w.w_now; w_inq = w.w_inq; w_last_arrival =
     w.w_last_arrival; w_txbuf = w.w_txbuf; w_script = w.w_script; w_broker =
     w.w_broker; w_log = w.w_log; w_handles = w.w_handles; w_waits =
-    w.w_waits; w_envok = b; w_wire = w.w_wire; w_poison = w.w_poison }
+    w.w_waits; w_envok = b; w_wire = w.w_wire; w_poison = w.w_poison;
+    w_drained = w.w_drained }
 
 (** val upd_wire : world -> bytes -> world **)
 
@@ -4129,7 +4139,8 @@ let upd_wire w b =
     w.w_event; w_now = w.w_now; w_inq = w.w_inq; w_last_arrival =
     w.w_last_arrival; w_txbuf = w.w_txbuf; w_script = w.w_script; w_broker =
     w.w_broker; w_log = w.w_log; w_handles = w.w_handles; w_waits =
-    w.w_waits; w_envok = w.w_envok; w_wire = b; w_poison = w.w_poison }
+    w.w_waits; w_envok = w.w_envok; w_wire = b; w_poison = w.w_poison;
+    w_drained = w.w_drained }
 
 (** val upd_poison : world -> bool -> world **)
 
@@ -4138,7 +4149,18 @@ let upd_poison w b =
     w.w_event; w_now = w.w_now; w_inq = w.w_inq; w_last_arrival =
     w.w_last_arrival; w_txbuf = w.w_txbuf; w_script = w.w_script; w_broker =
     w.w_broker; w_log = w.w_log; w_handles = w.w_handles; w_waits =
-    w.w_waits; w_envok = w.w_envok; w_wire = w.w_wire; w_poison = b }
+    w.w_waits; w_envok = w.w_envok; w_wire = w.w_wire; w_poison = b;
+    w_drained = w.w_drained }
+
+(** val upd_drained : world -> bool -> world **)
+
+let upd_drained w b =
+  { w_sess = w.w_sess; w_conn = w.w_conn; w_live = w.w_live; w_event =
+    w.w_event; w_now = w.w_now; w_inq = w.w_inq; w_last_arrival =
+    w.w_last_arrival; w_txbuf = w.w_txbuf; w_script = w.w_script; w_broker =
+    w.w_broker; w_log = w.w_log; w_handles = w.w_handles; w_waits =
+    w.w_waits; w_envok = w.w_envok; w_wire = w.w_wire; w_poison = w.w_poison;
+    w_drained = b }
 
 (** val mAX_WAITS : n **)
 
@@ -4649,8 +4671,13 @@ let process_received w =
            | Some p ->
              let (s2, hr) = handle_packet (set_reader s r') p in
              let w2 =
-               upd_envok (upd_sess w s2)
-                 ((&&) w.w_envok (ack_type_ok (set_reader s r') p))
+               upd_drained
+                 (upd_envok (upd_sess w s2)
+                   ((&&) w.w_envok (ack_type_ok (set_reader s r') p)))
+                 ((&&) w.w_drained
+                   (match next_step s.s_ob with
+                    | Some _ -> false
+                    | None -> true))
              in
              (match hr with
               | HOk deliver0 ->
@@ -6415,7 +6442,7 @@ let init_world c =
   { w_sess = (session_new c.c_cfg); w_conn = false; w_live = false; w_event =
     N0; w_now = N0; w_inq = []; w_last_arrival = N0; w_txbuf = []; w_script =
     c.c_script; w_broker = N0; w_log = []; w_handles = []; w_waits = N0;
-    w_envok = true; w_wire = []; w_poison = false }
+    w_envok = true; w_wire = []; w_poison = false; w_drained = true }
 
 (** val run_case : case -> world **)
 
